@@ -31,6 +31,9 @@ struct cp_data_t                       //@struct
    VERIF_UNC_STAGE_T unc_stage;        //@f unsigned int
    int               check_fail_cnt;   //@f
    bool              if_changed;       //@f
+#ifdef VERIF_FS_H
+   std::string       filename;         //@f& char ifdef=VERIF_FS_H
+#endif
    size_t            lang_flags;       //@f
    bool              lang_forced;      //@f
    bool              unc_off;          //@f
